@@ -7,6 +7,7 @@
 import PLS.Model.Index
 import PLS.Model.Cycles
 import PLS.Model.Scan
+import PLS.Model.Venv
 import PLS.Model.Lsp
 import PLS.Model.Completion
 import PLS.Generated
@@ -27,10 +28,21 @@ partial def globMatch : List Char → List Char → Bool
   | p :: ps, c :: s => p == c && globMatch ps s
   | _ :: _, [] => false
 
-def pathOf (s : String) : Path :=
-  if s == "." then [] else (s.splitOn "/").filter (· != "")
+/-- the path space of a case has the case directory as origin: the workspace root is `ws`, files
+    outside the workspace live under `ext` (written `@EXT/...` in case files) -/
+def wsRoot : Path := ["ws"]
 
-def showPath (p : Path) : String := if p.isEmpty then "." else "/".intercalate p
+def pathOf (s : String) : Path :=
+  if s == "." then wsRoot
+  else if s.startsWith "@EXT/" then "ext" :: ((s.drop 5).toString.splitOn "/").filter (· != "")
+  else wsRoot ++ (s.splitOn "/").filter (· != "")
+
+def showPath (p : Path) : String :=
+  match p with
+  | ["ws"] => "."
+  | "ws" :: rest => "/".intercalate rest
+  | "ext" :: rest => "@EXT/" ++ "/".intercalate rest
+  | _ => "!" ++ "/".intercalate p
 
 def hexDigit (n : Nat) : Char :=
   if n < 10 then Char.ofNat (48 + n) else Char.ofNat (87 + n)
@@ -495,7 +507,10 @@ def runOp (c : CaseSt) (t : List String) : String × CaseSt :=
     let globs := pats.map (fun h => (unhexStr? h).getD "")
     let excluded (f : Path) : Bool := globs.any (fun g => globMatch g.toList (showPath f).toList)
     let rank (f : Path) : Nat := (c.scanOrder.findIdx? (· == f)).getD (c.scanOrder.length + 1)
-    ("ok", { c with st := c.st.scanNoVenv c.pfx excluded rank })
+    let isEditable (js : Chars) : Bool :=
+      Index.containsSub "\"editable\": true".toList js || Index.containsSub "\"editable\":true".toList js
+    let excludedRel (f : Path) : Bool := globs.any (fun g => globMatch g.toList ("/".intercalate f).toList)
+    ("ok", { c with st := c.st.scanFull asciiLowerStr isEditable wsRoot c.pfxDirs excludedRel rank })
   | ["plugin", p] => ("ok", { c with st := { c.st with pluginFiles := c.st.pluginFiles ++ [pathOf p] } })
   | ["newdb"] =>
     ("ok", { c with st := { disk := c.st.disk, dirs := c.st.dirs } })
@@ -505,7 +520,7 @@ def runOp (c : CaseSt) (t : List String) : String × CaseSt :=
 def step (c : CaseSt) (line : String) : Option String × CaseSt :=
   let t := (line.splitOn " ").filter (· != "")
   match t with
-  | "case" :: n :: _ => (none, { name := n, pfx := ["ws"] })
+  | "case" :: n :: _ => (none, { name := n })
   | ["text", tid, h] => (none, { c with texts := (tid, if h == "-" then some "" else unhexStr? h) :: c.texts })
   | ["text", tid] => (none, { c with texts := (tid, some "") :: c.texts })
   | "ast" :: tid :: _ =>
@@ -521,8 +536,10 @@ def step (c : CaseSt) (line : String) : Option String × CaseSt :=
     | none =>
       -- not valid UTF-8: the file exists but cannot be read as text
       (none, { c with st := { st with disk := ainsert st.disk f { text := "\u0000unreadable", parsed := none } } })
-  | ["prefix", p] => (none, { c with pfxDirs := pathOf p, pfx := pathOf p ++ [c.rootName] })
-  | ["rootname", n] => (none, { c with rootName := n, pfx := c.pfxDirs ++ [n] })
+  | ["prefix", p] =>
+    let d := (p.splitOn "/").filter (· != "")
+    (none, { c with pfxDirs := d, pfx := d })
+  | ["rootname", n] => (none, { c with rootName := n })
   | ["hint", "scanorder", o] =>
     (none, { c with scanOrder := if o == "-" then [] else (o.splitOn ",").map pathOf })
   | ["mkdir", p] =>
